@@ -266,6 +266,15 @@ func (idx *HNSWIndex) Add(vector VectorNode) error {
 		}
 	}
 
+	// If every resident vertex is soft-deleted the new vector would find no live
+	// neighbor to link to and stay unreachable: purge the deleted vertices first
+	if len(idx.nodes) > 0 && int(idx.deletedNodes.GetCardinality()) >= len(idx.nodes) {
+		if err := idx.flushLocked(); err != nil {
+			idx.mu.Unlock()
+			return err
+		}
+	}
+
 	// Assign ID if needed (inside lock to ensure uniqueness)
 	if id == 0 {
 		id = idx.nextID
